@@ -42,7 +42,7 @@ def summarize(m, tier):
     return {'public_callables_monitored': len(targets), 'uncovered': unc, 'calls_per_callable': called}, problems
 
 
-def samples(F, rng, path, n=120):
+def samples(F, rng, path, n=120, big=False):
     si = zoo.int_spec(rng, n=n, d=5, res=1024, with_time=True)
     for row in si['events']:
         for j in range(4):
@@ -50,7 +50,12 @@ def samples(F, rng, path, n=120):
     s_int = zoo.write_and_load(F, si, path)
     s_flt = zoo.write_and_load(F, zoo.float_spec(rng, n=n, d=4), path)
     arr = np.abs(rng.normal(300, 100, size=(n, 4))) + 1
-    return {'int': s_int, 'float': s_flt, 'array': arr, 'rfi': F.transform.to_rfi(s_int)}
+    out = {'int': s_int, 'float': s_flt, 'array': arr, 'rfi': F.transform.to_rfi(s_int)}
+    if big:
+        sb = zoo.int_spec(rng, n=70001, d=4, res=1024)
+        out['big'] = F.transform.to_rfi(zoo.write_and_load(F, sb, path))
+        out['bigarray'] = np.abs(rng.normal(300, 100, size=(70001, 3))) + 1
+    return out
 
 
 def templates(F, S, rng):
@@ -166,6 +171,20 @@ def templates(F, S, rng):
         with open(tmpf, 'rb') as fh:
             return F.io.read_fcs_data_segment(fh, 0, 7, 'I', 2, widths, True, ranges)
     add('io.read_fcs_data_segment', 'lists', _read_seg)
+    # single channels by name and by position (a basic-indexing VIEW of the caller's events goes into the statistic) and a
+    # large sample (in-place / chunked fast paths engage only above tens of thousands of events)
+    for kind in ('int', 'float', 'rfi', 'big'):
+        d = S[kind]
+        for st in monitors.STATS:
+            add('stats.' + st, kind + ':scalar-name', lambda d=d, st=st: getattr(F.stats, st)(d, d.channels[1]))
+            add('stats.' + st, kind + ':scalar-position', lambda d=d, st=st: getattr(F.stats, st)(d, 2))
+            if kind == 'big':
+                add('stats.' + st, kind + ':list', lambda d=d, st=st: getattr(F.stats, st)(d, [d.channels[1], 0]))
+                add('stats.' + st, kind + ':array-scalar', lambda d=d, st=st: getattr(F.stats, st)(S['bigarray'], 1))
+    add('gate.high_low', 'big', lambda: F.gate.high_low(S['big'], [0, 1], full_output=True))
+    add('gate.ellipse', 'big', lambda: F.gate.ellipse(S['big'], [0, 1], [1.5, 1.5], 1.0, 0.8, 0.5, True, True))
+    add('gate.density2d', 'big', lambda: F.gate.density2d(S['big'], [0, 1], [40, 64], 0.5, 'logicle', 'logicle', 2.0, None, True))
+    add('transform.to_mef', 'big', lambda: F.transform.to_mef(S['big'], [2], [zoo.make_curve(1.1, 2.0)], [2]))
     return T
 
 
@@ -317,7 +336,7 @@ def run(ctx):
         if ctx.only_case is not None and ctx.only_case != cid:
             continue
         rng = ctx.rng(cid)
-        S = samples(F, rng, path)
+        S = samples(F, rng, path, big=True)
         T = templates(F, S, rng)
         for i, (q, label, fn) in enumerate(T):
             # every shard builds the same samples and runs its own slice of the template list
